@@ -116,8 +116,10 @@ class Scheduler:
         return me
 
     # ------------------------------------------------------------------ yield points
-    def point(self, me: Slot, kind: str) -> bool:
-        """A yield point of the baton holder.  Returns True if another actor ran meanwhile."""
+    def point(self, me: Slot, kind: str, before_park=None) -> bool:
+        """A yield point of the baton holder.  Returns True if another actor ran meanwhile.
+
+        `before_park` is called only when the baton is really handed over, right before parking."""
         if self.abort:
             raise Abort()
         self.points += 1
@@ -132,6 +134,8 @@ class Scheduler:
         self.record.append(nxt.aid)
         if nxt is me:
             return False
+        if before_park is not None:
+            before_park()
         self.switches += 1
         self.current = nxt
         nxt.sem.release()
